@@ -184,7 +184,15 @@ APPEND = {
     ("C03_load_call_is_step", "load_call_is_step", "Ops.v's load call (candidates computed with any last_yield) is a machine load step"),
     ("C03_store_call_is_step", "store_call_is_step", "the store call is a machine store step"),
     ("C03_rmw_call_is_step", "rmw_call_is_step", "the RMW call is a machine RMW step"),
-    ("C03_MStorePost_is_step", "MStorePost_is_step", "one micro-operation end to end: exec_micro on MStorePost is the machine's store step on (atomic a, the threads' clocks) (for t_rel = vv_new, ring not full)"),
+    ("C03_MStorePost_is_step", "MStorePost_is_step", "one micro-operation end to end: exec_micro on MStorePost is the machine's store step on (atomic a, the threads' clocks) (for t_rel <= t_caus, ring not full)"),
+    ("C03_MLoadPost_is_step", "MLoadPost_is_step", "likewise MLoadPost is a load step (hypothesis: the replayed index is a candidate)"),
+    ("C03_MFuLoadPost_is_step", "MFuLoadPost_is_step", "the load of fetch_update"),
+    ("C03_MRmwPost_is_step", "MRmwPost_is_step", "MRmwPost is an RMW step with the thread's released clock"),
+    ("C03_MUnsyncLoad_is_step", "MUnsyncLoad_is_step", "unsync_load is the machine's unsync step: ticks the clock, touches no store clock"),
+    ("C03_MWithMut_is_step", "MWithMut_is_step", "with_mut likewise"),
+    ("C03_unsync_load_out", "unsync_load_out", "the invariant survives unsync_load"),
+    ("C03_with_mut_out", "with_mut_out", "and with_mut"),
+    ("C03_bstep_out", "bstep_out", "every step kind of the generalised machine (model steps, stores/RMWs with any released clock below the thread's clock, unsync accesses, admissible growth): invariant kept, stamps kept, mo only extended, clocks only grow"),
  ])],
  "C02": [("LV.AtomicFacts LV.AtomicCoherence", "Nothing allowed is pruned without a reason: the candidate set is never empty and contains every mo-maximal store (AtomicCoherence.v)", [
     ("C02_mo_maximal_is_candidate", "mo_maximal_is_candidate", "a live store with no mo-later live store is always a candidate"),
